@@ -34,9 +34,27 @@ PLACES = ["top", "function", "procedure", "lambda", "if-branch", "for-body"]
 FORMS = ["private", "public"]
 
 
-def place(defline, useline, where):
+# how the definition is referenced afterwards: the reference index decides "unused" from the referrers' locations, so the
+# layout of the use matters (same line after `;`, inside a later nested subroutine, only inside a later definition's rhs)
+USES = [None, "next-line", "same-line", "same-line-in-def", "later-fn"]
+
+
+def body_lines(defline, use):
+    if use is None:
+        return [defline]
+    if use == "next-line":
+        return [defline, 'print! "use", x']
+    if use == "same-line":
+        return [defline + '; print! "use", x']
+    if use == "same-line-in-def":
+        return [defline + "; y = [x, 2]", 'print! "use", y']
+    if use == "later-fn":
+        return [defline, "u() = x", 'print! "use", u()']
+    raise ValueError(use)
+
+
+def place(body, where):
     """returns lines"""
-    body = [defline] + ([useline] if useline else [])
     if where == "top":
         return body
     if where == "function":
@@ -55,14 +73,15 @@ def place(defline, useline, where):
 
 def programs(tier):
     out = []
-    for (rn, rhs, pre, eff), where, form, used in itertools.product(RHS, PLACES, FORMS, (False, True)):
+    for (rn, rhs, pre, eff), where, form, use in itertools.product(RHS, PLACES, FORMS, USES):
         if form == "public" and where != "top":
+            continue
+        if tier == "quick" and use in ("same-line-in-def", "later-fn") and where not in ("top", "procedure"):
             continue
         name = ".x" if form == "public" else "x"
         d = f"{name} = {rhs}"
-        u = 'print! "use", x' if used else None
-        lines = list(pre) + place(d, u, where) + ['print! "end"']
-        out.append(({"rhs": rn, "place": where, "form": form, "used": used, "effect": eff}, "\n".join(lines) + "\n"))
+        lines = list(pre) + place(body_lines(d, use), where) + ['print! "end"']
+        out.append(({"rhs": rn, "place": where, "form": form, "used": use, "effect": eff}, "\n".join(lines) + "\n"))
     if tier != "quick":
         # two definitions in sequence (ordered pairs of right-hand sides) at top level and in a procedure
         for (r1, r2), where in itertools.product(itertools.product(RHS, RHS), ("top", "procedure")):
@@ -103,7 +122,7 @@ def run(chk):
             samples.append({"src": src, "outcome_at_o0": list(b0)})
         for o in (1, 2, 3):
             r = res.get(f"p{i}o{o}")
-            key = f"{meta['rhs']}:{meta['place']}:{meta['form']}:{'used' if meta['used'] else 'unused'}"
+            key = f"{meta['rhs']}:{meta['place']}:{meta['form']}:{'unused' if not meta['used'] else 'used' if meta['used'] in (True, 'next-line') else 'used-' + meta['used']}"
             if r is None or r["status"] != "ok":
                 chk.violation(f"accepted-at-o0-only:{key}", {"src": src, "opt": o, "result": r}, f"-o{o} does not compile what -o0 compiles: {src!r}")
                 continue
@@ -113,7 +132,7 @@ def run(chk):
                               f"-o{o} gives {bo} but -o0 gives {b0} for {src!r}")
     chk.coverage.update({
         "evaluations": len(items), "distinct_nontrivial": len(outcomes),
-        "rule": "definitions `x = RHS` / `.x = RHS` with RHS from 10 kinds (pure and side-effecting), placed at top level / in a function / procedure / lambda / if branch / for body, with and without a later use "
+        "rule": "definitions `x = RHS` / `.x = RHS` with RHS from 10 kinds (pure and side-effecting), placed at top level / in a function / procedure / lambda / if branch / for body, unused or used in one of four layouts (next line, same line after `;`, same line inside another definition, inside a later nested function) "
                 "(thorough: plus all ordered pairs of RHS kinds); each compiled at -o 0,1,2,3; distinct = distinct -o0 outcomes of accepted programs",
         "samples": samples or [{"src": progs[0][1]}], "programs": len(progs), "accepted_at_o0": accepted, "exhaustive": True,
     })
